@@ -872,6 +872,7 @@ def main(argv: List[str]) -> int:
             "gate_loop_invariants": ginfo.get("loop_invariants"),
             "gate_events": ginfo.get("events"),
             "gate_native_runs": gate_runs,
+            "random_schema_valid_documents": random_docs,
             "main_call_order": ginfo.get("call_order"),
             "merge_decided_by": merge_mode,
             "samples": stats.samples[:4],
